@@ -91,7 +91,7 @@ Definition shape4 (root : node) : bool := prog4 (fun _ _ _ => true) root.
 Definition C01_parser_shape4_stmt : Prop :=
   forall toks root, parse_tokens toks = Ok (Some root, []) -> shape4 root = true.
 
-Definition C01_calls_stmt : Prop :=
+Definition C01_calls_unguarded_stmt : Prop :=
   forall root r rs fuel rviews steps trace,
     canonical4 root = true -> lexable_names root = true ->
     gen true [] (Some root) = Ok r -> gr_ok r = true ->
@@ -99,13 +99,51 @@ Definition C01_calls_stmt : Prop :=
     run_ref_chk fuel rs = OStop rviews steps trace ->
     sim_conclusion r rviews steps.
 
-Definition C01_calls_budget_stmt : Prop :=
+Definition C01_calls_budget_unguarded_stmt : Prop :=
   forall root r rs n s,
     canonical4 root = true -> lexable_names root = true ->
     gen true [] (Some root) = Ok r -> gr_ok r = true ->
     abstract_source (Some root) = Some rs ->
     run_ref_chk n rs = OFuel ->
     vm_run n (init (gr_prog r)) = Ok s -> isDone s = Ok false.
+
+
+(* ---- the statements that hold: definitions whose PROGRAM node stands on the line of the sequence node above it ---- *)
+(* The two statements above quantify over ALL trees of the shape; for a tree in which a top-level PROGRAM node is on
+   another line than the SPLIT node that carries it (no parser output is like that: C01_parser_headers) the budget
+   clause is false — refuted in Proofs_C01s4x.v: a stop for the SPLIT node's line is left in front of the jump over the
+   definition, a label at the start of the main program is bound to that stop by the flattener and to the main entry
+   by the generator, and the reference run takes more steps than the VM executes instructions. *)
+Definition header_on (f : str) (l : Z) (file : str) (line : Z) : bool :=
+  str_eqb file hidden_file || (str_eqb file f && (line =? l)).
+Fixpoint headers_ok (n : node) : bool :=
+  match n with
+  | Node N_SPLIT sl sf _ (Some (Node N_PROGRAM pl pf _ _ _)) more =>
+      header_on sf sl pf pl && match more with None => true | Some m => headers_ok m end
+  | _ => true
+  end.
+
+Definition C01_calls_stmt : Prop :=
+  forall root r rs fuel rviews steps trace,
+    canonical4 root = true -> headers_ok root = true -> lexable_names root = true ->
+    gen true [] (Some root) = Ok r -> gr_ok r = true ->
+    abstract_source (Some root) = Some rs ->
+    run_ref_chk fuel rs = OStop rviews steps trace ->
+    sim_conclusion r rviews steps.
+
+Definition C01_calls_budget_stmt : Prop :=
+  forall root r rs n s,
+    canonical4 root = true -> headers_ok root = true -> lexable_names root = true ->
+    gen true [] (Some root) = Ok r -> gr_ok r = true ->
+    abstract_source (Some root) = Some rs ->
+    run_ref_chk n rs = OFuel ->
+    vm_run n (init (gr_prog r)) = Ok s -> isDone s = Ok false.
+
+Definition C01_calls_budget_needs_headers_stmt : Prop := ~ C01_calls_budget_unguarded_stmt.
+
+(* every tree the parser builds, even with syntax errors, has its definitions on the line of their sequence node *)
+Definition C01_parser_headers_stmt : Prop :=
+  forall toks root errs, parse_tokens toks = Ok (Some root, errs) -> headers_ok root = true.
 
 (* from source text: whatever the files and macros, if compilation succeeds and the expanded program is laid out
    canonically, the emitted bytecode computes the reference semantics of the parsed tree *)
